@@ -109,3 +109,43 @@ Proof.
   split; [repeat constructor; discriminate|].
   intro H. inversion H as [|? ? _ H2]. inversion H2 as [|? ? H3 _]. now apply H3.
 Qed.
+
+(* ---------- writer side, whole programs.  Two runs of the SAME sequence of API calls (any calls, any arguments, legal
+   or not) over sinks that split the writes differently -- both failure-free, e.g. one of them accepting everything
+   at once -- return the same result for every call (including the bytes finish() hands back) and leave the same
+   bytes in the sink, for every compressor and checksum, fresh and appended writers.  Excluded by hypothesis: runs in
+   which a call returns the large-file error of ZipWriter::write; that error fires on the inner write that crosses
+   4 GiB, so how much had reached the (then abandoned) sink does depend on the chunking.
+   Proof: Proofs/ChunkSim.v, a simulation over the whole writer state machine. *)
+From ZipV Require Import Model.Dos Proofs.ChunkSim.
+Theorem C09_programs_chunk_independent : forall enc crc p1 p2 calls s1' results,
+  nofail p1 -> nofail p2 ->
+  run_calls enc crc (new_writer p1) calls = (s1', results) -> Forall call_not_large results ->
+  exists s2', run_calls enc crc (new_writer p2) calls = (s2', results) /\ sink_bytes s1' = sink_bytes s2'.
+Proof.
+  intros enc crc p1 p2 calls s1' rs H1 H2 Hrun Hnl.
+  destruct (run_calls_sim enc crc calls _ _ _ _ (R_new p1 p2 H1 H2) Hrun Hnl) as (s2' & E & HR).
+  exists s2'. split; [exact E|exact (R_sink _ _ HR)].
+Qed.
+Print Assumptions C09_programs_chunk_independent.
+
+Theorem C09_append_programs_chunk_independent : forall enc crc data p1 p2 s1 calls s1' results,
+  nofail p1 -> nofail p2 -> new_append data p1 = Ok s1 ->
+  run_calls enc crc s1 calls = (s1', results) -> Forall call_not_large results ->
+  exists s2 s2', new_append data p2 = Ok s2 /\ run_calls enc crc s2 calls = (s2', results) /\ sink_bytes s1' = sink_bytes s2'.
+Proof.
+  intros enc crc data p1 p2 s1 calls s1' rs H1 H2 Hna Hrun Hnl.
+  destruct (R_new_append data p1 p2 s1 H1 H2 Hna) as (s2 & E2 & HR0).
+  destruct (run_calls_sim enc crc calls _ _ _ _ HR0 Hrun Hnl) as (s2' & E & HR).
+  exists s2, s2'. split; [exact E2|]. split; [exact E|exact (R_sink _ _ HR)].
+Qed.
+Print Assumptions C09_append_programs_chunk_independent.
+
+Example C09_programs_nonvacuous :
+  let o := {| o_method := CompressionMethod_Deflated; o_level := None; o_time := DateTime_default; o_perm := None;
+              o_large := false; o_encrypt := Some [Byte.x70] |} in
+  let calls := [KStartFile [Byte.x61] o; KWrite [Byte.x41; Byte.x42; Byte.x43]; KAddDir [Byte.x64] o; KFinish] in
+  let '(s1, r1) := run_calls (fun _ _ x => x) (fun _ => 7) (new_writer [WShort 1; WShort 3; WShort 1; WShort 2]) calls in
+  let '(s2, r2) := run_calls (fun _ _ x => x) (fun _ => 7) (new_writer []) calls in
+  forallb (fun r => match r with RUnit (Ok _) | RBytes (Ok _) => true | _ => false end) r1 = true /\ r1 = r2.
+Proof. vm_compute. split; reflexivity. Qed.
